@@ -20,6 +20,7 @@ macro_rules! tiers {
         $(, panics_in($($pi:literal),* $(,)?))?
         $(, kf_witness($kf:literal))?
         $(, exhaustive)?
+        $(, diverges)?
         $(,)?
     ) => {
         pub mod $name {
